@@ -2,7 +2,10 @@
 context in one more addrxlat.Context object, i.e. stacks one more callback layer whose methods are the pass-through
 next_cb_* methods.  Page-table walks through 1..3 such layers must fetch the same page-table entries as a reference walk
 done with plain kdumpfile.read() calls (0 layers): libkdumpfile's get_page hook returns whole pages and moves the buffer
-address down to the page boundary, page-table entries sit at addresses that are not page aligned.
+address down to the page boundary, page-table entries sit at addresses that are not page aligned.  Reads of kernel virtual
+addresses by the dump object itself (`kvread`) must give the same bytes -- or fail with the same exception class -- whether or
+not such layers sit on its context: a page fetch that fails in the dump (e.g. behind the end of a truncated file) comes back
+to libkdumpfile through the layers as a negative status number.
 
 usage: py_dumpwalk.py <dump> <root physical address (hex)> <vaddr (hex)> ...
 One line per observation:  <what> <vaddr> <layers> -> <outcome>"""
@@ -67,8 +70,15 @@ def ref_word(addr):
     return "%x@%x+%x" % (int.from_bytes(bytes(k.read(kdumpfile.KDUMP_KPHYSADDR, addr, 8)), 'little'), pg, addr - pg)
 
 
+def kv_read(vaddr):
+    """8 bytes at a kernel virtual address, read by libkdumpfile itself: its C code translates the address through the callback
+    chain (all layers stacked so far) and gets the status of its own page hook back as a number"""
+    return bytes(k.read(kdumpfile.KDUMP_KVADDR, vaddr, 8)).hex()
+
+
 def observe(ctx, n, tag=""):
     for v in vaddrs:
+        print("%skvread %x %d -> %s" % (tag, v, n, outcome(kv_read, v)))
         if ctx is None:
             print("%swalk %x %d -> %s" % (tag, v, n, outcome(ref_walk, v)))
             print("%sconv %x %d -> %s" % (tag, v, n, outcome(ref_walk, v)))
